@@ -250,4 +250,770 @@ theorem mintStep_spec (st0 : State) (un0 : Balances) (blk : Block) (tx : Tx) (ar
           refine ⟨trivial, fun un1 h hn => ?_⟩
           exact ⟨addLot_nodup h hn, fun r => addLot_lk h r⟩
 
+
+theorem stAfterMint_balances (st : State) (h : Nat) (tx : Tx) : (stAfterMint st h tx).balances = st.balances := by
+  unfold stAfterMint
+  split
+  · rfl
+  · split
+    · rfl
+    · exact mint_balances _ _ _
+
+theorem txEtched_of {st0 : State} {blk : Block} {i : Nat} {tx : Tx} {art : Artifact} {st2 : State}
+    {et : Option (RuneId × Nat)} (hart : tx.artifact = some art)
+    (hE : etched (stAfterMint st0 blk.height tx) blk i tx art = .ok (st2, et)) :
+    txEtched st0 blk i tx = et.map (fun p => (p.1, premineOf art)) := by
+  unfold txEtched
+  rw [hart]
+  simp only
+  rw [hE]
+  cases et with
+  | none => rfl
+  | some p => obtain ⟨id, rune⟩ := p; rfl
+
+/-- **phase 1 refines the specification**: after mint, premine and the edict loop, rune `r`'s
+numbers are the documented flow from `u0 = inputs + mint + premine`. -/
+theorem phase1_ok {st0 : State} {un0 : Balances} {alloc0 : Allocated} {blk : Block} {i : Nat} {tx : Tx}
+    {st3 : State} {un : Balances} {alloc : Allocated} {evs : List Event}
+    (h : phase1 st0 un0 alloc0 blk i tx = .ok (st3, un, alloc, evs))
+    (hg : Good un0 alloc0) (hlen : alloc0.length = tx.outputs.length) (hrows : ∀ v, rowAt alloc0 v = []) :
+    Good un alloc ∧ alloc.length = tx.outputs.length ∧ st3.balances = st0.balances ∧
+    ∀ r, absFlow un alloc r =
+      match Message.ofArtifact tx.artifact with
+      | .runestone edicts _ =>
+        flow (outsOf tx) ((txEtched st0 blk i tx).map (·.1)) r edicts (Flow.start (u0Of st0 un0 blk i tx r))
+      | _ => Flow.start (u0Of st0 un0 blk i tx r) := by
+  unfold phase1 at h
+  cases hart : tx.artifact with
+  | none =>
+    rw [hart] at h
+    simp only [Outcome.ok.injEq, Prod.mk.injEq] at h
+    obtain ⟨rfl, rfl, rfl, rfl⟩ := h
+    refine ⟨hg, hlen, rfl, fun r => ?_⟩
+    simp only [Message.ofArtifact]
+    rw [start_of_empty _ _ hrows]
+    simp [u0Of, unallocated, txMint, txEtched, hart]
+  | some art =>
+    rw [hart] at h
+    simp only at h
+    have hsp := mintStep_spec st0 un0 blk tx art hart
+    cases hms : mintStep st0 un0 blk tx art with
+    | mk st1 rest =>
+      obtain ⟨un1O, ev1⟩ := rest
+      rw [hms] at h hsp
+      simp only at h hsp
+      obtain ⟨hst1, hun1⟩ := hsp
+      cases un1O with
+      | panic s => exact absurd h (by simp)
+      | err e => exact absurd h (by simp)
+      | ok un1 =>
+        simp only at h
+        obtain ⟨hn1, hlk1⟩ := hun1 un1 rfl hg.1
+        cases hE : etched st1 blk i tx art with
+        | panic s => rw [hE] at h; exact absurd h (by simp)
+        | err e => rw [hE] at h; exact absurd h (by simp)
+        | ok p2 =>
+          obtain ⟨st2, et⟩ := p2
+          rw [hE] at h
+          simp only at h
+          have hst2 : st2.balances = st0.balances := by
+            rw [etched_balances hE, hst1, stAfterMint_balances]
+          have htE : txEtched st0 blk i tx = et.map (fun p => (p.1, premineOf art)) :=
+            txEtched_of hart (hst1 ▸ hE)
+          cases hA : afterEdictsOf tx art et un1 alloc0 with
+          | panic s => rw [hA] at h; exact absurd h (by simp)
+          | err e => rw [hA] at h; exact absurd h (by simp)
+          | ok p3 =>
+            obtain ⟨un3, alloc1⟩ := p3
+            rw [hA] at h
+            simp only at h
+            -- the result state
+            have hres : un = un3 ∧ alloc = alloc1 ∧ st3.balances = st0.balances := by
+              cases et with
+              | none =>
+                simp only [Outcome.ok.injEq, Prod.mk.injEq] at h
+                obtain ⟨rfl, rfl, rfl, _⟩ := h
+                exact ⟨rfl, rfl, hst2⟩
+              | some p =>
+                obtain ⟨id, rune⟩ := p
+                simp only [Outcome.ok.injEq, Prod.mk.injEq] at h
+                obtain ⟨rfl, rfl, rfl, _⟩ := h
+                exact ⟨rfl, rfl, by rw [createRuneEntry_balances]; exact hst2⟩
+            obtain ⟨rfl, rfl, hb3⟩ := hres
+            -- the allocation
+            cases art with
+            | cenotaph ce cm =>
+              simp only [afterEdictsOf, Outcome.ok.injEq, Prod.mk.injEq] at hA
+              obtain ⟨rfl, rfl⟩ := hA
+              refine ⟨⟨hn1, hg.2⟩, hlen, hb3, fun r => ?_⟩
+              simp only [Message.ofArtifact]
+              rw [start_of_empty _ _ hrows]
+              congr 1
+              rw [hlk1 r]
+              simp only [u0Of, unallocated, htE]
+              cases et with
+              | none => simp <;> rfl
+              | some p => simp [premineOf] <;> rfl
+            | runestone edicts etching m ptr =>
+              simp only [afterEdictsOf] at hA
+              have key : ∀ un2, (keys un2).Nodup → (∀ r, lk un2 r = u0Of st0 un0 blk i tx r) →
+                  applyEdicts tx (et.map (·.1)) edicts un2 alloc0 = .ok (un, alloc) →
+                  Good un alloc ∧ alloc.length = tx.outputs.length ∧ st3.balances = st0.balances ∧
+                  ∀ r, absFlow un alloc r =
+                    match Message.ofArtifact (some (Artifact.runestone edicts etching m ptr)) with
+                    | .runestone edicts _ =>
+                      flow (outsOf tx) ((txEtched st0 blk i tx).map (·.1)) r edicts (Flow.start (u0Of st0 un0 blk i tx r))
+                    | _ => Flow.start (u0Of st0 un0 blk i tx r) := by
+                intro un2 hn2 hlk2 hA2
+                obtain ⟨hg3, hl3, hf3⟩ := applyEdicts_ok tx (et.map (·.1)) edicts un2 alloc0 un alloc hA2 ⟨hn2, hg.2⟩ hlen
+                refine ⟨hg3, hl3.trans hlen, hb3, fun r => ?_⟩
+                simp only [Message.ofArtifact]
+                rw [hf3 r, start_of_empty _ _ hrows, hlk2 r, htE]
+                congr 1
+                cases et <;> rfl
+              cases et with
+              | none =>
+                simp only at hA
+                refine key un1 hn1 (fun r => ?_) hA
+                rw [hlk1 r]
+                simp only [u0Of, unallocated, htE]
+                simp <;> rfl
+              | some p =>
+                obtain ⟨id, rune⟩ := p
+                simp only at hA
+                cases hadd : addLot un1 id ((etching.bind (·.premine)).getD 0) with
+                | panic s => rw [hadd] at hA; exact absurd hA (by simp)
+                | err e => rw [hadd] at hA; exact absurd hA (by simp)
+                | ok un2 =>
+                  rw [hadd] at hA
+                  simp only at hA
+                  refine key un2 (addLot_nodup hadd hn1) (fun r => ?_) hA
+                  rw [addLot_lk hadd r, hlk1 r]
+                  simp only [u0Of, unallocated, htE]
+                  simp [premineOf] <;> rfl
+
+
+/-- the default output of `settle` -/
+def dfltOf (tx : Tx) : Option Nat :=
+  match Message.ofArtifact tx.artifact with
+  | .runestone _ (some p) => some p
+  | _ => (eligible (outsOf tx)).head?
+
+/-- leftovers of one rune: to the default output if there is one -/
+def leftover (dflt : Option Nat) (f : Flow) : Flow :=
+  match dflt with
+  | some v => f.give v f.un
+  | none => f
+
+theorem find_first_from : ∀ (outs : List TxOut) (j : Nat),
+    ((enumFrom j outs).find? (fun (_, o) => !o.opReturn)).map (·.1)
+      = (eligibleFrom j (outs.map (·.opReturn))).head? := by
+  intro outs
+  induction outs with
+  | nil => intro j; simp [enumFrom, eligibleFrom]
+  | cons o rest ih =>
+    intro j
+    simp only [enumFrom, List.map_cons, eligibleFrom, List.find?_cons]
+    by_cases h : o.opReturn = true
+    · simp [h, ih]
+    · have : o.opReturn = false := by simpa using h
+      simp [this]
+
+theorem find_first (tx : Tx) :
+    ((enumFrom 0 tx.outputs).find? (fun (_, o) => !o.opReturn)).map (·.1) = (eligible (outsOf tx)).head? :=
+  find_first_from tx.outputs 0
+
+/-- adding the leftovers `un` to output `v` -/
+theorem add_leftovers {un : Balances} {alloc : Allocated} {v : Nat} {m : Balances}
+    (h : addAllTo un (alloc[v]?.getD []) true = .ok m) (hg : Good un alloc) (hv : v < alloc.length) :
+    (∀ w, (keys (rowAt (alloc.set v m) w)).Nodup) ∧ (alloc.set v m).length = alloc.length ∧
+    ∀ r w, lk (rowAt (alloc.set v m) w) r = ((absFlow un alloc r).give v (absFlow un alloc r).un).out w := by
+  obtain ⟨hn, hl⟩ := addAllTo_spec un _ m true hg.1 (hg.2 v) h
+  refine ⟨fun w => ?_, by simp, fun r w => ?_⟩
+  · rw [rowAt_set _ _ _ hv]; split
+    · exact hn
+    · exact hg.2 w
+  · rw [rowAt_set _ _ _ hv]
+    by_cases hw : w = v
+    · subst hw
+      simp only [if_true, Flow.give, absFlow]
+      rw [hl r]
+    · simp [hw, Flow.give, absFlow]
+
+/-- **phase 2 = the documented leftover rule** -/
+theorem phase2_ok {tx : Tx} {un : Balances} {alloc alloc2 : Allocated} {burned0 : Balances}
+    (h : phase2 tx un alloc = .ok (alloc2, burned0)) (hg : Good un alloc)
+    (hlen : alloc.length = tx.outputs.length) :
+    (∀ w, (keys (rowAt alloc2 w)).Nodup) ∧ (keys burned0).Nodup ∧ alloc2.length = tx.outputs.length ∧
+    ∀ r,
+      match Message.ofArtifact tx.artifact with
+      | .cenotaph => (∀ w, lk (rowAt alloc2 w) r = (absFlow un alloc r).out w) ∧ lk burned0 r = (absFlow un alloc r).un
+      | _ => (∀ w, lk (rowAt alloc2 w) r = (leftover (dfltOf tx) (absFlow un alloc r)).out w) ∧
+             lk burned0 r = (leftover (dfltOf tx) (absFlow un alloc r)).un := by
+  unfold phase2 at h
+  rw [find_first] at h
+  have hnil : (keys ([] : Balances)).Nodup := by simp
+  -- the three ways of handling leftovers
+  have toBurn : ∀ skip, addAllTo un [] skip = .ok burned0 → alloc2 = alloc →
+      (∀ w, (keys (rowAt alloc2 w)).Nodup) ∧ (keys burned0).Nodup ∧ alloc2.length = tx.outputs.length ∧
+      ∀ r, (∀ w, lk (rowAt alloc2 w) r = (absFlow un alloc r).out w) ∧ lk burned0 r = (absFlow un alloc r).un := by
+    intro skip hb ha
+    subst ha
+    obtain ⟨hn, hl⟩ := addAllTo_spec un [] burned0 skip hg.1 hnil hb
+    exact ⟨hg.2, hn, hlen, fun r => ⟨fun w => rfl, by rw [hl r]; simp [absFlow]⟩⟩
+  have toOut : ∀ v m, v < alloc.length → addAllTo un (alloc[v]?.getD []) true = .ok m → alloc2 = alloc.set v m → burned0 = [] →
+      (∀ w, (keys (rowAt alloc2 w)).Nodup) ∧ (keys burned0).Nodup ∧ alloc2.length = tx.outputs.length ∧
+      ∀ r, (∀ w, lk (rowAt alloc2 w) r = (leftover (some v) (absFlow un alloc r)).out w) ∧
+           lk burned0 r = (leftover (some v) (absFlow un alloc r)).un := by
+    intro v m hv hm ha hb
+    subst ha; subst hb
+    obtain ⟨h1, h2, h3⟩ := add_leftovers hm hg hv
+    exact ⟨h1, hnil, h2.trans hlen, fun r => ⟨fun w => h3 r w, by simp [leftover, Flow.give]⟩⟩
+  cases hart : tx.artifact with
+  | none =>
+    rw [hart] at h
+    simp only at h
+    have hd : dfltOf tx = (eligible (outsOf tx)).head? := by simp [dfltOf, hart, Message.ofArtifact]
+    simp only [Message.ofArtifact, hd]
+    cases hfe : (eligible (outsOf tx)).head? with
+    | none =>
+      rw [hfe] at h
+      simp only at h
+      split at h
+      · rename_i b hb
+        simp only [Outcome.ok.injEq, Prod.mk.injEq] at h
+        obtain ⟨rfl, rfl⟩ := h
+        exact toBurn true hb rfl
+      · exact absurd h (by simp)
+      · exact absurd h (by simp)
+    | some v =>
+      rw [hfe] at h
+      simp only at h
+      have hv : v < alloc.length := by rw [hlen]; have := head_eligible_lt _ _ hfe; simpa [outsOf] using this
+      split at h
+      · rename_i m hm
+        simp only [Outcome.ok.injEq, Prod.mk.injEq] at h
+        exact toOut v m hv hm h.1.symm h.2.symm
+      · exact absurd h (by simp)
+      · exact absurd h (by simp)
+  | some art =>
+    cases art with
+    | cenotaph ce cm =>
+      rw [hart] at h
+      simp only at h
+      simp only [Message.ofArtifact]
+      split at h
+      · rename_i b hb
+        simp only [Outcome.ok.injEq, Prod.mk.injEq] at h
+        obtain ⟨rfl, rfl⟩ := h
+        exact toBurn false hb rfl
+      · exact absurd h (by simp)
+      · exact absurd h (by simp)
+    | runestone edicts etching m ptr =>
+      rw [hart] at h
+      simp only at h
+      simp only [Message.ofArtifact]
+      cases ptr with
+      | some p =>
+        have hd : dfltOf tx = some p := by simp [dfltOf, hart, Message.ofArtifact]
+        simp only [hd]
+        simp only at h
+        split at h
+        · exact absurd h (by simp)
+        · rename_i hp
+          split at h
+          · rename_i m' hm
+            simp only [Outcome.ok.injEq, Prod.mk.injEq] at h
+            exact toOut p m' (by omega) hm h.1.symm h.2.symm
+          · exact absurd h (by simp)
+          · exact absurd h (by simp)
+      | none =>
+        have hd : dfltOf tx = (eligible (outsOf tx)).head? := by simp [dfltOf, hart, Message.ofArtifact]
+        simp only [hd]
+        simp only at h
+        cases hfe : (eligible (outsOf tx)).head? with
+        | none =>
+          rw [hfe] at h
+          simp only at h
+          split at h
+          · rename_i b hb
+            simp only [Outcome.ok.injEq, Prod.mk.injEq] at h
+            obtain ⟨rfl, rfl⟩ := h
+            exact toBurn true hb rfl
+          · exact absurd h (by simp)
+          · exact absurd h (by simp)
+        | some v =>
+          rw [hfe] at h
+          simp only at h
+          have hv : v < alloc.length := by rw [hlen]; have := head_eligible_lt _ _ hfe; simpa [outsOf] using this
+          split at h
+          · rename_i m' hm
+            simp only [Outcome.ok.injEq, Prod.mk.injEq] at h
+            exact toOut v m' hv hm h.1.symm h.2.symm
+          · exact absurd h (by simp)
+          · exact absurd h (by simp)
+
+
+/-- Σ of the entries of a stored row that name rune `r` (= `lk row r` when no id repeats) -/
+def rowSum : Balances → RuneId → Nat
+  | [], _ => 0
+  | (id, b) :: rest, r => (if id = r then b else 0) + rowSum rest r
+
+/-- what the inputs bring of rune `r`: the rows of the spent outpoints, each outpoint once -/
+def inputRunes (bals : List (OutPoint × Balances)) : List TxIn → RuneId → Nat
+  | [], _ => 0
+  | i :: rest, r =>
+    match AL.get bals i.prev with
+    | none => inputRunes bals rest r
+    | some row => rowSum row r + inputRunes (AL.erase bals i.prev) rest r
+
+/-- the balances table after the inputs' rows were removed -/
+def spendAll (bals : List (OutPoint × Balances)) : List TxIn → List (OutPoint × Balances)
+  | [] => bals
+  | i :: rest =>
+    match AL.get bals i.prev with
+    | none => spendAll bals rest
+    | some _ => spendAll (AL.erase bals i.prev) rest
+
+theorem addAll_spec : ∀ (bs un un' : Balances), takeInputs.addAll bs un = .ok un' → (keys un).Nodup →
+    (keys un').Nodup ∧ ∀ r, lk un' r = lk un r + rowSum bs r := by
+  intro bs
+  induction bs with
+  | nil =>
+    intro un un' h hn
+    simp only [takeInputs.addAll, Outcome.ok.injEq] at h
+    subst h
+    exact ⟨hn, fun r => by simp [rowSum]⟩
+  | cons p rest ih =>
+    intro un un' h hn
+    obtain ⟨id, b⟩ := p
+    simp only [takeInputs.addAll] at h
+    split at h
+    · rename_i un1 hadd
+      obtain ⟨hn', hl⟩ := ih un1 un' h (addLot_nodup hadd hn)
+      refine ⟨hn', fun r => ?_⟩
+      rw [hl r, addLot_lk hadd r]; simp only [rowSum]; omega
+    · exact absurd h (by simp)
+    · exact absurd h (by simp)
+
+theorem takeInputs_ok : ∀ (ins : List TxIn) (st : State) (un : Balances) (st' : State) (un' : Balances),
+    takeInputs ins st un = .ok (st', un') → (keys un).Nodup →
+    (keys un').Nodup ∧ (∀ r, lk un' r = lk un r + inputRunes st.balances ins r) ∧
+    st' = { st with balances := spendAll st.balances ins } := by
+  intro ins
+  induction ins with
+  | nil =>
+    intro st un st' un' h hn
+    simp only [takeInputs, Outcome.ok.injEq, Prod.mk.injEq] at h
+    obtain ⟨rfl, rfl⟩ := h
+    exact ⟨hn, fun r => by simp [inputRunes], rfl⟩
+  | cons i rest ih =>
+    intro st un st' un' h hn
+    simp only [takeInputs] at h
+    split at h
+    · rename_i hget
+      obtain ⟨h1, h2, h3⟩ := ih st un st' un' h hn
+      refine ⟨h1, fun r => ?_, ?_⟩
+      · rw [h2 r]; simp [inputRunes, hget]
+      · rw [h3]; simp [spendAll, hget]
+    · rename_i bs hget
+      split at h
+      · rename_i un1 hadd
+        obtain ⟨hn1, hl1⟩ := addAll_spec bs un un1 hadd hn
+        obtain ⟨h1, h2, h3⟩ := ih _ un1 st' un' h hn1
+        refine ⟨h1, fun r => ?_, ?_⟩
+        · rw [h2 r, hl1 r]; simp only [inputRunes, hget]; omega
+        · rw [h3]; simp [spendAll, hget]
+      · exact absurd h (by simp)
+      · exact absurd h (by simp)
+
+
+/-- output `v` of `tx` is OP_RETURN (absent = no), as `writeOutputs` asks -/
+def opretAt (tx : Tx) (v : Nat) : Bool :=
+  match tx.outputs[v]? with
+  | some o => o.opReturn
+  | none => false
+
+/-- what `writeOutputs` burns of rune `r`: the rows sitting on OP_RETURN outputs -/
+def burnFrom (tx : Tx) (r : RuneId) : Nat → List Balances → Nat
+  | _, [] => 0
+  | j, bs :: rest => (if opretAt tx j then lk bs r else 0) + burnFrom tx r (j + 1) rest
+
+theorem writeOutputs_ok (blk : Block) (tx : Tx) : ∀ (rows : List Balances) (j : Nat) (st : State)
+    (burned : Balances) (evs : List Event) (st' : State) (burned' : Balances) (evs' : List Event),
+    writeOutputs blk tx (enumFrom j rows) st burned evs = .ok (st', burned', evs') →
+    (keys burned).Nodup → (∀ bs ∈ rows, (keys bs).Nodup) →
+    (keys burned').Nodup ∧
+    (∀ r, lk burned' r = lk burned r + burnFrom tx r j rows) ∧
+    (∀ o : OutPoint, (o.txid ≠ tx.txid ∨ o.vout < j ∨ o.vout ≥ j + rows.length) →
+      AL.get st'.balances o = AL.get st.balances o) ∧
+    (∀ k bs, rows[k]? = some bs →
+      AL.get st'.balances ⟨tx.txid, j + k⟩ =
+        if bs = [] ∨ opretAt tx (j + k) = true then AL.get st.balances ⟨tx.txid, j + k⟩
+        else some (sortBalances bs)) := by
+  intro rows
+  induction rows with
+  | nil =>
+    intro j st burned evs st' burned' evs' h hn _
+    simp only [enumFrom, writeOutputs, Outcome.ok.injEq, Prod.mk.injEq] at h
+    obtain ⟨rfl, rfl, rfl⟩ := h
+    exact ⟨hn, fun r => by simp [burnFrom], fun _ _ => rfl, fun k bs hk => by simp at hk⟩
+  | cons b rest ih =>
+    intro j st burned evs st' burned' evs' h hn hrows
+    have hb : (keys b).Nodup := hrows b List.mem_cons_self
+    have hrest : ∀ bs ∈ rest, (keys bs).Nodup := fun bs hm => hrows bs (List.mem_cons_of_mem _ hm)
+    simp only [enumFrom, writeOutputs] at h
+    -- common shape of the conclusion given the recursive call's facts
+    have finish : ∀ (st1 : State) (burned1 : Balances),
+        ((keys burned').Nodup ∧
+          (∀ r, lk burned' r = lk burned1 r + burnFrom tx r (j + 1) rest) ∧
+          (∀ o : OutPoint, (o.txid ≠ tx.txid ∨ o.vout < j + 1 ∨ o.vout ≥ j + 1 + rest.length) →
+            AL.get st'.balances o = AL.get st1.balances o) ∧
+          (∀ k bs, rest[k]? = some bs →
+            AL.get st'.balances ⟨tx.txid, j + 1 + k⟩ =
+              if bs = [] ∨ opretAt tx (j + 1 + k) = true then AL.get st1.balances ⟨tx.txid, j + 1 + k⟩
+              else some (sortBalances bs))) →
+        (∀ r, lk burned1 r = lk burned r + (if opretAt tx j then lk b r else 0)) →
+        (∀ o : OutPoint, (o.txid ≠ tx.txid ∨ o.vout ≠ j) → AL.get st1.balances o = AL.get st.balances o) →
+        (AL.get st1.balances ⟨tx.txid, j⟩ =
+          if b = [] ∨ opretAt tx j = true then AL.get st.balances ⟨tx.txid, j⟩ else some (sortBalances b)) →
+        (keys burned').Nodup ∧
+        (∀ r, lk burned' r = lk burned r + burnFrom tx r j (b :: rest)) ∧
+        (∀ o : OutPoint, (o.txid ≠ tx.txid ∨ o.vout < j ∨ o.vout ≥ j + (b :: rest).length) →
+          AL.get st'.balances o = AL.get st.balances o) ∧
+        (∀ k bs, (b :: rest)[k]? = some bs →
+          AL.get st'.balances ⟨tx.txid, j + k⟩ =
+            if bs = [] ∨ opretAt tx (j + k) = true then AL.get st.balances ⟨tx.txid, j + k⟩
+            else some (sortBalances bs)) := by
+      intro st1 burned1 hih hb1 hfr hj
+      obtain ⟨h1, h2, h3, h4⟩ := hih
+      refine ⟨h1, fun r => ?_, fun o ho => ?_, fun k bs hk => ?_⟩
+      · rw [h2 r, hb1 r]; simp only [burnFrom]; omega
+      · simp only [List.length_cons] at ho
+        have ho1 : o.txid ≠ tx.txid ∨ o.vout < j + 1 ∨ o.vout ≥ j + 1 + rest.length := by
+          rcases ho with h | h | h
+          · exact Or.inl h
+          · exact Or.inr (Or.inl (by omega))
+          · exact Or.inr (Or.inr (by omega))
+        have ho2 : o.txid ≠ tx.txid ∨ o.vout ≠ j := by
+          rcases ho with h | h | h
+          · exact Or.inl h
+          · exact Or.inr (by omega)
+          · exact Or.inr (by omega)
+        rw [h3 o ho1]
+        exact hfr o ho2
+      · cases k with
+        | zero =>
+          simp only [List.getElem?_cons_zero, Option.some.injEq] at hk
+          subst hk
+          rw [Nat.add_zero, h3 ⟨tx.txid, j⟩ (Or.inr (Or.inl (by simp)))]
+          exact hj
+        | succ k' =>
+          simp only [List.getElem?_cons_succ] at hk
+          have e : j + (k' + 1) = j + 1 + k' := by omega
+          rw [e, h4 k' bs hk]
+          rw [hfr ⟨tx.txid, j + 1 + k'⟩ (Or.inr (by simp; omega))]
+    split at h
+    · -- empty row: skipped
+      rename_i hemp
+      have hbe : b = [] := by simpa using hemp
+      refine finish st burned (ih (j + 1) st burned evs st' burned' evs' h hn hrest) (fun r => ?_) (fun _ _ => rfl) ?_
+      · subst hbe; simp
+      · simp [hbe]
+    · rename_i hne
+      have hbne : ¬ b = [] := by simpa using hne
+      cases hout : tx.outputs[j]? with
+      | none =>
+        rw [hout] at h
+        have hop' : opretAt tx j = false := by simp [opretAt, hout]
+        simp only [Bool.false_eq_true, if_false] at h
+        refine finish _ burned (ih (j + 1) _ burned _ st' burned' evs' h hn hrest) (fun r => ?_) (fun o ho => ?_) ?_
+        · simp [hop']
+        · show AL.get (AL.set st.balances _ _) o = _
+          rw [get_set]
+          have : ¬ ((⟨tx.txid, j⟩ : OutPoint) = o) := by
+            intro e; subst e; simp at ho
+          have hb' : ((⟨tx.txid, j⟩ : OutPoint) == o) = false := by simpa using this
+          simp [hb']
+        · show AL.get (AL.set st.balances _ _) _ = _
+          rw [get_set]
+          simp [hbne, hop']
+      | some o =>
+        rw [hout] at h
+        by_cases ho : o.opReturn = true
+        · have hop' : opretAt tx j = true := by simp [opretAt, hout, ho]
+          simp only [ho, if_true] at h
+          split at h
+          · rename_i burned1 hadd
+            obtain ⟨hn1, hl1⟩ := addAllTo_spec b burned burned1 false hb hn hadd
+            refine finish st burned1 (ih (j + 1) st burned1 evs st' burned' evs' h hn1 hrest) (fun r => ?_) (fun _ _ => rfl) ?_
+            · rw [hl1 r, hop']; simp
+            · simp [hop']
+          · exact absurd h (by simp)
+          · exact absurd h (by simp)
+        · have ho' : o.opReturn = false := by simpa using ho
+          have hop' : opretAt tx j = false := by simp [opretAt, hout, ho']
+          simp only [ho', Bool.false_eq_true, if_false] at h
+          refine finish _ burned (ih (j + 1) _ burned _ st' burned' evs' h hn hrest) (fun r => ?_) (fun o ho => ?_) ?_
+          · simp [hop']
+          · show AL.get (AL.set st.balances _ _) o = _
+            rw [get_set]
+            have : ¬ ((⟨tx.txid, j⟩ : OutPoint) = o) := by
+              intro e; subst e; simp at ho
+            have hb' : ((⟨tx.txid, j⟩ : OutPoint) == o) = false := by simpa using this
+            simp [hb']
+          · show AL.get (AL.set st.balances _ _) _ = _
+            rw [get_set]
+            simp [hbne, hop']
+
+
+theorem burnFrom_eq (tx : Tx) (r : RuneId) (g : Nat → Nat) : ∀ (rows : List Balances) (os : List TxOut) (j : Nat),
+    rows.length = os.length → (∀ k (h : k < os.length), tx.outputs[j + k]? = some os[k]) →
+    (∀ k (h : k < rows.length), g (j + k) = lk rows[k] r) →
+    burnFrom tx r j rows = sumOpReturnFrom g j (os.map (·.opReturn)) := by
+  intro rows
+  induction rows with
+  | nil =>
+    intro os j hl _ _
+    cases os with
+    | nil => rfl
+    | cons _ _ => simp at hl
+  | cons b rest ih =>
+    intro os j hl ho hg
+    cases os with
+    | nil => simp at hl
+    | cons o os' =>
+      simp only [burnFrom, List.map_cons, sumOpReturnFrom]
+      have h0 : opretAt tx j = o.opReturn := by
+        have := ho 0 (by simp)
+        simp only [Nat.add_zero, List.getElem_cons_zero] at this
+        simp [opretAt, this]
+      have hg0 : g j = lk b r := by
+        have := hg 0 (by simp)
+        simpa using this
+      rw [h0, hg0]
+      congr 1
+      apply ih os' (j + 1) (by simpa using hl)
+      · intro k hk
+        have := ho (k + 1) (by simp; omega)
+        have e : j + 1 + k = j + (k + 1) := by omega
+        rw [e]; simpa using this
+      · intro k hk
+        have := hg (k + 1) (by simp; omega)
+        have e : j + 1 + k = j + (k + 1) := by omega
+        rw [e]; simpa using this
+
+theorem get_erase_none {κ ν : Type} [BEq κ] [LawfulBEq κ] (l : List (κ × ν)) (k k' : κ)
+    (h : AL.get l k' = none) : AL.get (AL.erase l k) k' = none := by
+  induction l with
+  | nil => simp [AL.erase, AL.get]
+  | cons p rest ih =>
+    obtain ⟨k0, v0⟩ := p
+    simp only [AL.get] at h
+    simp only [AL.erase]
+    split at h
+    · exact absurd h (by simp)
+    · rename_i hk0
+      split
+      · exact h
+      · simp only [AL.get, hk0]; exact ih h
+
+theorem get_spendAll_none : ∀ (ins : List TxIn) (bals : List (OutPoint × Balances)) (o : OutPoint),
+    AL.get bals o = none → AL.get (spendAll bals ins) o = none := by
+  intro ins
+  induction ins with
+  | nil => intro bals o h; exact h
+  | cons i rest ih =>
+    intro bals o h
+    simp only [spendAll]
+    split
+    · exact ih bals o h
+    · exact ih _ o (get_erase_none _ _ _ h)
+
+theorem sumOpReturnFrom_zero : ∀ (outs : List Bool) (i : Nat), sumOpReturnFrom (fun _ => 0) i outs = 0 := by
+  intro outs
+  induction outs with
+  | nil => intro i; rfl
+  | cons b rest ih => intro i; simp [sumOpReturnFrom, ih]
+
+theorem sumOpReturnFrom_congr (g h : Nat → Nat) (hgh : ∀ v, g v = h v) : ∀ (outs : List Bool) (i : Nat),
+    sumOpReturnFrom g i outs = sumOpReturnFrom h i outs := by
+  have : g = h := funext hgh
+  subst this; intro _ _; rfl
+
+/-- the write-out: what ends up in the table and in the block's burn map, in terms of the final
+per-rune numbers `F` -/
+theorem tail_ok {blk : Block} {tx : Tx} {alloc2 : Allocated} {st3 st4 : State} {burned0 burned bb bb' : Balances}
+    {evs evs2 : List Event}
+    (hw : writeOutputs blk tx (enumFrom 0 alloc2) st3 burned0 evs = .ok (st4, burned, evs2))
+    (hadd : addAllTo burned bb false = .ok bb')
+    (hrows : ∀ w, (keys (rowAt alloc2 w)).Nodup) (hb0 : (keys burned0).Nodup) (hbb : (keys bb).Nodup)
+    (hlen : alloc2.length = tx.outputs.length)
+    (hfresh : ∀ v, AL.get st3.balances ⟨tx.txid, v⟩ = none)
+    (r : RuneId) (F : Flow) (hF : ∀ w, lk (rowAt alloc2 w) r = F.out w) (hFun : lk burned0 r = F.un) :
+    (∀ v, v < tx.outputs.length →
+      lk ((AL.get st4.balances ⟨tx.txid, v⟩).getD []) r = if opReturnAt (outsOf tx) v then 0 else F.out v) ∧
+    lk bb' r = lk bb r + (F.un + sumOpReturnFrom F.out 0 (outsOf tx)) ∧ (keys bb').Nodup := by
+  have hmem : ∀ bs ∈ alloc2, (keys bs).Nodup := by
+    intro bs hm
+    obtain ⟨k, hk⟩ := List.mem_iff_getElem?.1 hm
+    have := hrows k
+    simpa [rowAt, hk] using this
+  obtain ⟨hn, hl, _, hget⟩ := writeOutputs_ok blk tx alloc2 0 st3 burned0 evs st4 burned evs2 hw hb0 hmem
+  obtain ⟨hnb, hlb⟩ := addAllTo_spec burned bb bb' false hn hbb hadd
+  refine ⟨fun v hv => ?_, ?_, hnb⟩
+  · have hv2 : v < alloc2.length := by omega
+    have hk : alloc2[v]? = some alloc2[v] := by simp [hv2]
+    have := hget v alloc2[v] hk
+    simp only [Nat.zero_add] at this
+    rw [this]
+    have hrow : rowAt alloc2 v = alloc2[v] := by simp [rowAt, hv2]
+    have hop : opretAt tx v = opReturnAt (outsOf tx) v := by
+      simp [opretAt, opReturnAt, outsOf, hv]
+    rw [← hop]
+    by_cases hc : alloc2[v] = [] ∨ opretAt tx v = true
+    · rw [if_pos hc, hfresh v]
+      rcases hc with hc | hc
+      · have : F.out v = 0 := by rw [← hF v, hrow, hc]; simp
+        simp [this]
+      · simp [hc]
+    · rw [if_neg hc]
+      have hc2 : opretAt tx v = false := by
+        have : ¬ opretAt tx v = true := fun h => hc (Or.inr h)
+        simpa using this
+      simp only [Option.getD_some, hc2, Bool.false_eq_true, if_false]
+      rw [lk_sort _ (hmem _ (List.getElem_mem hv2)), ← hF v, hrow]
+  · rw [hlb r, hl r, hFun]
+    have := burnFrom_eq tx r F.out alloc2 tx.outputs 0 hlen
+      (fun k h => by simp [h])
+      (fun k h => by rw [← hF (0 + k)]; simp [rowAt, h])
+    rw [this]; simp only [outsOf]
+
+
+/-- the state after the inputs' rows were taken -/
+def spent (st : State) (tx : Tx) : State := { st with balances := spendAll st.balances tx.inputs }
+
+/-- what rune `r` has unallocated in this transaction before the edicts (R1) -/
+def txUnallocated (st : State) (blk : Block) (i : Nat) (tx : Tx) (r : RuneId) : Nat :=
+  unallocated (inputRunes st.balances tx.inputs) (txMint (spent st tx) blk.height tx)
+    (txEtched (spent st tx) blk i tx) r
+
+/-- what the specification says the transaction does with rune `r` -/
+def txSpec (st : State) (blk : Block) (i : Nat) (tx : Tx) (r : RuneId) : Result :=
+  Spec.allocate (outsOf tx) (Message.ofArtifact tx.artifact) ((txEtched (spent st tx) blk i tx).map (·.1)) r
+    (txUnallocated st blk i tx r)
+
+/-- the default output: the pointer, else the first non-OP_RETURN output -/
+def dfltFor (outs : List Bool) (ptr : Option Nat) : Option Nat :=
+  match ptr with
+  | some p => some p
+  | none => (eligible outs).head?
+
+theorem settle_eq_leftover (tx : Tx) (ptr : Option Nat) (f : Flow)
+    (hd : dfltOf tx = dfltFor (outsOf tx) ptr) :
+    settle (outsOf tx) ptr f =
+      ⟨fun v => if opReturnAt (outsOf tx) v then 0 else (leftover (dfltOf tx) f).out v,
+       (leftover (dfltOf tx) f).un + sumOpReturnFrom (leftover (dfltOf tx) f).out 0 (outsOf tx)⟩ := by
+  rw [hd]
+  cases ptr with
+  | some p => rfl
+  | none => cases h : (eligible (outsOf tx)).head? <;> simp [settle, leftover, dfltFor, h]
+
+/-- **`indexRunesTx` refines `Spec.allocate`.** -/
+theorem indexRunesTx_refines {st : State} {blk : Block} {i : Nat} {tx : Tx} {bb : Balances}
+    {st' : State} {bb' : Balances} {evs : List Event}
+    (hok : indexRunesTx st blk i tx bb = .ok (st', bb', evs))
+    (hfresh : ∀ v, AL.get st.balances ⟨tx.txid, v⟩ = none) (hbb : (keys bb).Nodup) (r : RuneId) :
+    (∀ v, v < tx.outputs.length →
+      lk ((AL.get st'.balances ⟨tx.txid, v⟩).getD []) r = (txSpec st blk i tx r).out v) ∧
+    lk bb' r = lk bb r + (txSpec st blk i tx r).burned ∧ (keys bb').Nodup := by
+  rw [indexRunesTx_eq] at hok
+  cases hti : takeInputs tx.inputs st [] with
+  | panic s => rw [hti] at hok; exact absurd hok (by simp)
+  | err e => rw [hti] at hok; exact absurd hok (by simp)
+  | ok p0 =>
+    obtain ⟨st0, un0⟩ := p0
+    rw [hti] at hok
+    simp only at hok
+    obtain ⟨hn0, hl0, hst0⟩ := takeInputs_ok tx.inputs st [] st0 un0 hti (by simp)
+    have hst0' : st0 = spent st tx := hst0
+    have hrows0 : ∀ v, rowAt (tx.outputs.map (fun _ => ([] : Balances))) v = [] := rowAt_replicate tx.outputs
+    cases hp1 : phase1 st0 un0 (tx.outputs.map (fun _ => [])) blk i tx with
+    | panic s => rw [hp1] at hok; exact absurd hok (by simp)
+    | err e => rw [hp1] at hok; exact absurd hok (by simp)
+    | ok p1 =>
+      obtain ⟨st3, un, alloc, evs1⟩ := p1
+      rw [hp1] at hok
+      simp only at hok
+      obtain ⟨hg1, hlen1, hb1, hf1⟩ := phase1_ok hp1
+        ⟨hn0, fun v => by rw [hrows0 v]; simp⟩ (by simp) hrows0
+      cases hp2 : phase2 tx un alloc with
+      | panic s => rw [hp2] at hok; exact absurd hok (by simp)
+      | err e => rw [hp2] at hok; exact absurd hok (by simp)
+      | ok p2 =>
+        obtain ⟨alloc2, burned0⟩ := p2
+        rw [hp2] at hok
+        simp only at hok
+        obtain ⟨hr2, hnb0, hlen2, hf2⟩ := phase2_ok hp2 hg1 hlen1
+        cases hw : writeOutputs blk tx (enumFrom 0 alloc2) st3 burned0 evs1 with
+        | panic s => rw [hw] at hok; exact absurd hok (by simp)
+        | err e => rw [hw] at hok; exact absurd hok (by simp)
+        | ok p3 =>
+          obtain ⟨st4, burned, evs2⟩ := p3
+          rw [hw] at hok
+          simp only at hok
+          cases hadd : addAllTo burned bb false with
+          | panic s => rw [hadd] at hok; exact absurd hok (by simp)
+          | err e => rw [hadd] at hok; exact absurd hok (by simp)
+          | ok bbx =>
+            rw [hadd] at hok
+            simp only [Outcome.ok.injEq, Prod.mk.injEq] at hok
+            obtain ⟨rfl, rfl, _⟩ := hok
+            have hfresh3 : ∀ v, AL.get st3.balances ⟨tx.txid, v⟩ = none := by
+              intro v
+              rw [hb1, hst0]
+              exact get_spendAll_none _ _ _ (hfresh v)
+            have hu0 : u0Of st0 un0 blk i tx r = txUnallocated st blk i tx r := by
+              simp only [u0Of, txUnallocated, unallocated, hst0']
+              rw [hl0 r]; simp
+            have tail := fun F h1 h2 => tail_ok hw hadd hr2 hnb0 hbb hlen2 hfresh3 r F h1 h2
+            have hf1r := hf1 r
+            have hf2r := hf2 r
+            rw [hu0, hst0'] at hf1r
+            unfold txSpec
+            cases hmsg : Message.ofArtifact tx.artifact with
+            | cenotaph =>
+              rw [hmsg] at hf1r hf2r
+              simp only at hf1r hf2r
+              obtain ⟨h1, h2, h3⟩ := tail (absFlow un alloc r) hf2r.1 hf2r.2
+              rw [hf1r] at h1 h2
+              refine ⟨fun v hv => ?_, ?_, h3⟩
+              · rw [h1 v hv]; simp [Spec.allocate, Flow.start]
+              · rw [h2]; simp [Spec.allocate, Flow.start, sumOpReturnFrom_zero]
+            | none =>
+              rw [hmsg] at hf1r hf2r
+              simp only at hf1r hf2r
+              obtain ⟨h1, h2, h3⟩ := tail _ hf2r.1 hf2r.2
+              rw [hf1r] at h1 h2
+              have hd : dfltOf tx = dfltFor (outsOf tx) none := by
+                simp [dfltOf, hmsg, dfltFor]
+              have hs := settle_eq_leftover tx none (Flow.start (txUnallocated st blk i tx r)) hd
+              refine ⟨fun v hv => ?_, ?_, h3⟩
+              · rw [h1 v hv]; simp only [Spec.allocate, hs]
+              · rw [h2]; simp only [Spec.allocate, hs]
+            | runestone edicts ptr =>
+              rw [hmsg] at hf1r hf2r
+              simp only at hf1r hf2r
+              obtain ⟨h1, h2, h3⟩ := tail _ hf2r.1 hf2r.2
+              rw [hf1r] at h1 h2
+              have hd : dfltOf tx = dfltFor (outsOf tx) ptr := by
+                simp only [dfltOf, hmsg, dfltFor]
+                cases ptr <;> rfl
+              have hs := settle_eq_leftover tx ptr
+                (flow (outsOf tx) ((txEtched (spent st tx) blk i tx).map (·.1)) r edicts
+                  (Flow.start (txUnallocated st blk i tx r))) hd
+              refine ⟨fun v hv => ?_, ?_, h3⟩
+              · rw [h1 v hv]; simp only [Spec.allocate, hs]
+              · rw [h2]; simp only [Spec.allocate, hs]
+
 end Ord.Index.RS
